@@ -288,3 +288,60 @@ func RunTicking(seed int64) []Mismatch {
 	}
 	return mms
 }
+
+// RunScale: many more groups than the bounded model has ids expire together. One successful Process call at a time past
+// all their expiries emits every one of them, oldest first, and leaves only what it gated itself (Gated.tla's
+// NoExpiredAfterProcess and ExpiredOldestFirst do not depend on how many groups there are).
+func RunScale(groups int, withBroker bool) []Mismatch {
+	var mms []Mismatch
+	cc := &cctrl{}
+	var clk int64
+	// (the expiration is longer than the time it takes to gate all groups: nothing expires before the clock jumps)
+	f := &gated.Filter{Expiration: time.Duration(groups+100) * time.Second, NowFunc: func() time.Time { return t0.Add(time.Duration(clk) * time.Second) }}
+	if withBroker {
+		f.Broker = &csender{}
+	}
+	ctx := context.Background()
+	ord := 0
+	send := func(id string, flush bool) error {
+		ord++
+		_, err := f.Process(ctx, &eventlogger.Event{Type: "t", CreatedAt: t0, Payload: &cpay{ID: id, Flush: flush, Ord: ord, cc: cc}, Formatted: map[string][]byte{}})
+		return err
+	}
+	for g := 0; g < groups; g++ {
+		if err := send(fmt.Sprintf("group-%03d", g), false); err != nil {
+			return []Mismatch{{Props: []string{"C11"}, What: "gating an event", Expected: "nil", Observed: err.Error()}}
+		}
+		if g%3 == 0 {
+			clk++ // the groups do not all have the same expiry
+		}
+	}
+	clk += int64(groups) + 1000
+	before := len(cc.comps)
+	if err := send("late", false); err != nil {
+		return []Mismatch{{Props: []string{"C17"}, What: "Process after every group expired", Expected: "nil", Observed: err.Error()}}
+	}
+	emitted := cc.comps[before:]
+	if withBroker {
+		if len(emitted) != groups {
+			mms = append(mms, Mismatch{Props: []string{"C17"}, What: fmt.Sprintf("%d groups had expired when Process was called: composites handed to the Broker by that call", groups), Expected: groups, Observed: len(emitted)})
+		}
+		for i := 1; i < len(emitted); i++ {
+			if emitted[i][0] < emitted[i-1][0] {
+				mms = append(mms, Mismatch{Props: []string{"C17"}, What: "expired groups leave oldest first", Expected: "ascending", Observed: fmt.Sprint(emitted)})
+				break
+			}
+		}
+	}
+	// what is still gated: only the late event
+	before = len(cc.comps)
+	f.FlushAll(ctx)
+	left := 0
+	for _, c := range cc.comps[before:] {
+		left += len(c)
+	}
+	if withBroker && left != 1 {
+		mms = append(mms, Mismatch{Props: []string{"C17"}, What: fmt.Sprintf("events still gated after a Process call past the expiry of all %d groups (FlushAll probe)", groups), Expected: 1, Observed: left})
+	}
+	return mms
+}
